@@ -23,7 +23,8 @@ import z3  # noqa: E402
 from pyvc.loader import Repo  # noqa: E402
 from pyvc.spec import Registry, parse_expr  # noqa: E402
 from pyvc.symex import Unsupported, SpecError, Obligation  # noqa: E402
-from pyvc.verify import Verifier, discharge, Result, to_smt2, to_smt2_ground, discharge_smt2, run_cvc5_text  # noqa: E402
+from pyvc.symex import has_quantifier  # noqa: E402
+from pyvc.verify import Verifier, discharge, Result, to_smt2, to_smt2_ground, to_smt2_sliced, discharge_smt2, run_cvc5_text  # noqa: E402
 import specs  # noqa: E402
 
 EVIDENCE_DIR = os.path.join(HERE, "evidence")
@@ -78,6 +79,13 @@ def verify_one(target):
             text = to_smt2(o, bg)
             item = dict(name=o.name, kind=o.kind, line=o.line, smt2=text, path=o.extra.get("path"), note=o.extra.get("note"),
                         goal=o.goal.sexpr()[:1500], size=len(text), excl={}, ground=to_smt2_ground(o))
+            if any(has_quantifier(a) for a in o.assumptions) or has_quantifier(o.goal):
+                # further weakenings, tried in this order after the quantifier-free one: all assumptions without background axioms;
+                # only the assumptions connected to the goal (with background)
+                item["nobg"] = to_smt2(o, [])
+                sl = to_smt2_sliced(o, bg)
+                if sl is not None:
+                    item["sliced"] = sl
             for f in v.finding_specs:
                 if f.get("kind") and f["kind"] != o.kind:
                     continue
@@ -108,10 +116,16 @@ def discharge_one(item):
     if item.get("ground"):
         # first attempt on the quantifier-free weakening (fewer assumptions: a proof there is a proof of the obligation);
         # it keeps the ground obligations away from the quantified background axioms, where z3 tends to wander
-        rg = discharge_smt2(item["name"], item["kind"], item["line"], item["ground"], timeout_ms=2000, use_cvc5=False, seed=seed, retries=0)
+        rg = discharge_smt2(item["name"], item["kind"], item["line"], item["ground"], timeout_ms=2000, use_cvc5=False, seed=seed, retries=0, inproc=True)
         if rg.status == "proved":
             rg.backend = "z3 (quantifier-free weakening)"
             r = rg
+    for key, label in (("nobg", "z3 (assumptions only, no background axioms)"), ("sliced", "z3 (assumptions connected to the goal)")):
+        if r is None and item.get(key):
+            rw = discharge_smt2(item["name"], item["kind"], item["line"], item[key], timeout_ms=5000, use_cvc5=False, seed=seed, retries=0)
+            if rw.status == "proved":
+                rw.backend = label
+                r = rw
     if r is None:
         r = discharge_smt2(item["name"], item["kind"], item["line"], item["smt2"], timeout_ms=timeout, seed=seed)
     d = r.to_json()
